@@ -450,6 +450,10 @@ L = dict(FRAGMENT=0x50, SEQUENCE=0x51, FRAG_INDEX=0x52, FRAG_COUNT=0x53, PIT_TOK
          TX_SEQUENCE=0x0348, NON_DISCOVERY=0x034C, PREFIX_ANNOUNCEMENT=0x0350)
 
 
+LP_PLAIN_HEADERS = {0x032C: 'incoming_face_id', 0x0330: 'next_hop_face_id', 0x0340: 'congestion_mark', 0x0344: 'ack', 0x0348: 'tx_sequence',
+                    0x034C: 'non_discovery', 0x0350: 'prefix_announcement'}
+
+
 def strict_lp(wire, with_tl=True):
     """Reads what the application layer uses: fragmentation fields, PIT token, Nack, fragment.
     Header fields are located by type anywhere in the envelope (headers precede the fragment in
@@ -478,6 +482,9 @@ def strict_lp(wire, with_tl=True):
                 out['nack_reason_omitted'] = True
         elif t == L['FRAGMENT'] and out['fragment'] is None:
             out['fragment'] = bytes(buf[cvs:cve])
+        elif t in LP_PLAIN_HEADERS and LP_PLAIN_HEADERS[t] not in out:
+            # the remaining headers the format defines: value octets as they stand (integers are read by the caller)
+            out[LP_PLAIN_HEADERS[t]] = bytes(buf[cvs:cve])
     return out
 
 
